@@ -35,7 +35,8 @@ LEVEL = "exploration"
 RULE = (
     "cases = 2-3 hosts, 1-4 datasets (1-64 bytes, distinct contents and decoding-function strings) pre-stored on generated hosts, a "
     "script of 1-8 commands (transfer A->B, redundant transfer of a dataset B already has, repeated transfers of one dataset, fetch to "
-    "the controller, purge at the target at any moment, purge at the source once the transfer was stored), and a generated schedule: "
+    "the controller, purge at the target at any moment, purge at the source once the transfer was stored; commands repeated back-to-back and then purged; storing pool biased towards "
+    "finishing late in a third of the cases), and a generated schedule: "
     "fate of every framed message (command, payload, Ack: deliver / drop / duplicate / hold), server turns (one real recv_loop "
     "iteration each, empty turns advance the virtual clock by the 4 s resend grace), completion order of pool jobs, controller turns; "
     "fair loss (<=2 drops per message, holds <=3 timeouts, so that the 20-retry budget cannot be exhausted) then a loss-free drain. Oracle at quiescence: every host that was sent a dataset and did not "
